@@ -53,6 +53,7 @@ type vpWorld struct {
 	ctxSeen                                                      []context.Context
 	openMaySucceed                                               bool
 	openAlways                                                   bool // OpenFile never fails
+	readCloseMayFail                                             bool // Close of a read handle may report an error
 	wedge                                                        chan struct{} // when non-nil, CreateFile waits for it to be closed
 	wedgeIgnoresCtx                                              bool          // ... without honouring its context
 	createCalls                                                  int
@@ -174,6 +175,9 @@ func (f *vpReader) Seek(off int64, whence int) (int64, error) { return 0, nil }
 func (f *vpReader) Close() error {
 	f.closed++
 	f.w.log(evReadClose, f.id)
+	if f.w.readCloseMayFail && nondetBool() {
+		return vpInjected()
+	}
 	return nil
 }
 
